@@ -16,7 +16,7 @@ LEVEL_TEXT = (
     'inverse permutations with matching endianness. OS timing, datagram loss and real sockets are out '
     'of scope.')
 
-FLOORS = {'C17-R1': 3, 'C17-R2': 1, 'C17-R3': 3, 'C17-R4': 2, 'C17-R5': 8, 'C17-R6': 4}
+FLOORS = {'C17-R1': 3, 'C17-R2': 1, 'C17-R3': 4, 'C17-R4': 2, 'C17-R5': 8, 'C17-R6': 4}
 
 HANDLERS = ('Actor::on_msg', 'Actor::on_timeout', 'Actor::on_random')
 
@@ -71,7 +71,8 @@ def r1_r2_r3_r5a(ctx, F):
     if okb:
         pb_, pv_ = capture_origin(F, b, b.val(binds[0].args[0]), through=('Clone::clone',))
         pc_ = pb_.call_at(pv_.key) if pv_.kind == 'call' and not pv_.projs else None
-        okb = pc_ is not None and pc_.is_('From::from') and pc_.targs and 'SocketAddrV4' in pc_.targs[0]
+        from common import converts
+        okb = converts(pc_, 'Id', 'SocketAddrV4')
     ctx.check(okb, 'C17-R1', 'binds-own-address', b,
               good='the socket is bound to SocketAddrV4::from(id)',
               bad='actor::spawn: the actor\'s socket is not bound to the address its Id encodes (SocketAddrV4::from(id)): '
@@ -119,16 +120,38 @@ def r1_r2_r3_r5a(ctx, F):
               good='on_msg receives the deserialised message',
               bad='actor::spawn: on_msg receives %r, not the deserialised datagram' % mv)
     rf = b.calls_to('UdpSocket::recv_from')
-    srcv = b.val(om.args[3])
-    fc = b.call_at(srcv.key) if srcv.kind == 'call' else None
-    ok = False
-    if fc is not None and fc.is_('From::from') and len(rf) == 1:
+    srcvs = set(noref(x) for x in vals_of(b, noref(b.val(om.args[3]))))
+    ok = bool(srcvs) and len(rf) == 1
+    for srcv in srcvs:
+        fc = b.call_at(srcv.key) if srcv.kind == 'call' and not srcv.fields() else None
+        if fc is None or not fc.is_('From::from', 'Into::into'):
+            ok = False
+            continue
         avs = set(noref(x) for x in vals_of(b, noref(b.val(fc.args[0]))))
-        ok = bool(avs) and all(a.kind == 'call' and a.key == rf[0].bb and 'as V4' in a.projs for a in avs)
+        ok = ok and bool(avs) and all(a.kind == 'call' and a.key == rf[0].bb and 'as V4' in a.projs for a in avs)
     ctx.check(ok, 'C17-R3', 'src-is-sender-address', b,
               good='src = Id::from(V4 address returned by recv_from)',
               bad='actor::spawn: the src handed to on_msg is not Id::from(the datagram\'s IPv4 source address)')
-    # bytes handed to deserialize are the received prefix of the buffer
+    # bytes handed to deserialize are the received prefix of the buffer: `&in_buf[..count]` with the buffer that
+    # recv_from filled and the count it returned - not trimmed, re-sliced or otherwise transformed on the way
+    dv_ = noref(b.trace(b.val(des[0].args[0]), ('Deref::deref', 'AsRef::as_ref', 'Borrow::borrow')))
+    ic_ = b.call_at(dv_.key) if dv_.kind == 'call' and not dv_.fields() else None
+    okp = False
+    if ic_ is not None and ic_.is_('Index::index', 'IndexMut::index_mut', 'slice::get_unchecked') and len(rf) == 1 and \
+            len(ic_.args) == 2:
+        bufv = noref(b.trace(b.val(ic_.args[0]), ('Deref::deref', 'DerefMut::deref_mut')))
+        rbuf = noref(b.trace(b.val(rf[0].args[1]), ('Deref::deref', 'DerefMut::deref_mut', 'IndexMut::index_mut')))
+        rng = b.val(ic_.args[1])
+        ends = [noref(x) for x in (rng.key[3] if rng.kind == 'agg' and 'RangeTo' in str(rng.key[1]) else ())]
+        cnt_ok = bool(ends) and all(
+            all(y.kind == 'call' and y.key == rf[0].bb and 'as Ok' in y.projs and y.fields()[-1:] == ('.0',)
+                for y in (noref(z) for z in vals_of(b, e_))) for e_ in ends)
+        okp = bufv == rbuf and cnt_ok
+    ctx.check(okp, 'C17-R3', 'deserialize-gets-the-received-bytes', b,
+              good='deserialize is handed exactly the bytes recv_from wrote: &buffer[..count]',
+              bad='actor::spawn: deserialize is not handed exactly the received datagram (&in_buf[..count] of the buffer '
+                  'and count of recv_from): the message on_msg gets is decoded from other bytes than the ones that '
+                  'were sent')
     # R5a timers fire only after the deadline and after removal of the entry
     th = [h for h in hs if h.is_('Actor::on_timeout', 'Actor::on_random')]
     cds = b.calls_to('Instant::checked_duration_since')
@@ -200,7 +223,8 @@ def r4_r5b_on_command(ctx, F):
     if snd:
         dv = b.val(snd[0].args[2])
         fc = b.call_at(dv.key) if dv.kind == 'call' else None
-        okd = fc is not None and fc.is_('From::from') and noref(b.val(fc.args[0])) == V('arg', 2, ('as Send', '.0'))
+        from common import converts
+        okd = converts(fc, 'Id', 'SocketAddrV4') and noref(b.val(fc.args[0])) == V('arg', 2, ('as Send', '.0'))
         bv = noref(b.trace(b.val(snd[0].args[1]), ('Deref::deref',)))
         okb = bv.kind == 'call' and bv.key == ser[0].bb
         ctx.check(okd and okb, 'C17-R4', 'datagram-to-dst-with-serialised-bytes', b,
